@@ -403,6 +403,9 @@ def run(ctx):
     close_hdr(ctx, prog)
     varint_rule(ctx, prog)
 
+    from engine.run import borrow
+    borrow(ctx, 'C05', ['PTR-ADVANCE'], 'a write path that converts every piece of a long request from the start of the caller buffer stores repeated data: what is read back is not what was written')
+
 
 def varint_rule(ctx, prog, rule='VARINT'):
     """CAF 'pakt' table: variable-length packet sizes.  Each guarded arm `(value & M) == value` of alac_pakt_encode must have M = 2^(7n) - 1 and store
